@@ -59,8 +59,8 @@ def rt(kind, obj, absfn, printer, parser, src):
                 obj3, exc3 = guarded(lambda: parser(text))
                 if exc3 != "none":
                     ev["exc"] = "reparse_" + exc3
-                elif absfn(obj3) != ev["parsed"]:
-                    ev["parsed"] = absfn(obj3)
+                elif absfn(obj3) != ev["parsed"] and ev["parsed"] == A:
+                    ev["parsed"] = absfn(obj3)        # the first result was right, the second is not: report the second
             except Exception:
                 pass
     return ev
@@ -225,6 +225,13 @@ def _events(src):
         if not ca.cfg_is_simple(G) or {r.variable for r in G.R} != set(G.V) or G.R[0].variable != G.S \
                 or set().union(*[r.terminals() for r in G.R]) != set(G.Sigma):
             return
+        if len(str(src)) % 3 == 0:
+            # history: grammar texts the parser has to REJECT are parsed first (nothing to parse; an epsilon declaration
+            # followed by a malformed production; a production without an arrow); a parser must not carry its epsilon
+            # symbol or anything else over from a rejected text into the next call
+            for bad in ("", "% only a comment\n", "epsilon = _\nS -> a | _\nA b\n", "epsilon = e\nS -> aS | e\n-> a\n",
+                        "S a\n", "epsilon = _\nS -> _\nS ->-> a\n"):
+                guarded(lambda: quiet_parse(ca.parse_simple_cfg, bad), 10)
         yield rt("cfg", G, cfg_sorted, ca.cfg_print_simple, ca.parse_simple_cfg, src)
 
 
